@@ -107,3 +107,44 @@ Proof.
   rewrite Hne, str_eqb_refl. reflexivity.
 Qed.
 Print Assumptions keep_retains_partial_setup.
+
+(* ---- the hypotheses are satisfiable on a non-trivial world ----
+   The world of Proofs/SetupExample.v (see the Example at the end of Props/C01.v): WF holds for it (decided by the
+   checker of Model/SetupWf.v, sound by Proofs/SetupWf.v); libb is set up from the empty environment (base at
+   1.0), then liba with --just: the run returns the explicit state ex_liba_just, only liba is touched, and
+   bystanders_untouched applies to the setup record of base. *)
+From Eupsv Require Import Model.SetupWf Proofs.SetupWf Proofs.SetupExample.
+
+Example c04_hypotheses_inhabited :
+  WF ex_world (dl_of ex_world) /\ nodollar_paths ex_world (s_env ex_st0) /\
+  setup ex_world ex_cfg 20 ex_st0 [Some (lit "1.0"); Some (lit "1.0")] (lit "libb") true 0 false = RDone true ex_libb [] /\
+  nodollar_paths ex_world (s_env ex_libb) /\
+  setup ex_world ex_cfg 20 ex_libb [Some (lit "1.0")] (lit "liba") true 0 true = RDone true ex_liba_just [] /\
+  ~ path_var ex_world (setup_var (lit "base")) /\
+  (forall n, touches ex_world (levels ex_cfg 0 true) (lit "liba") n -> ~ own_var ex_world n (setup_var (lit "base"))) /\
+  alookup (setup_var (lit "base")) (s_env ex_liba_just) = alookup (setup_var (lit "base")) (s_env ex_libb).
+Proof.
+  assert (H : WF ex_world (dl_of ex_world)) by (apply (wf_check_sound ex_world ex_order); vm_compute; reflexivity).
+  assert (R1 : setup ex_world ex_cfg 20 ex_st0 [Some (lit "1.0"); Some (lit "1.0")] (lit "libb") true 0 false
+               = RDone true ex_libb []) by (vm_compute; reflexivity).
+  assert (R2 : setup ex_world ex_cfg 20 ex_libb [Some (lit "1.0")] (lit "liba") true 0 true
+               = RDone true ex_liba_just []) by (vm_compute; reflexivity).
+  assert (D1 : nodollar_paths ex_world (s_env ex_libb)).
+  { pose proof (setup_changes_only_what_it_reaches ex_world ex_cfg (dl_of ex_world) 20 H ex_st0
+                  [Some (lit "1.0"); Some (lit "1.0")] (lit "libb") true 0 false (nodollar_nil ex_world) I) as G.
+    rewrite R1 in G. exact (proj1 (proj2 G)). }
+  assert (P : ~ path_var ex_world (setup_var (lit "base"))).
+  { apply (reserved_not_path ex_world (dl_of ex_world) H). exists (lit "base"). now left. }
+  assert (O : forall n, touches ex_world (levels ex_cfg 0 true) (lit "liba") n ->
+                        ~ own_var ex_world n (setup_var (lit "base"))).
+  { intros n Ht. apply (just_touches_only_the_product ex_world (lit "liba") n) in Ht. subst n.
+    intros [E|[E|[E|[p [v [[Hin Hn] Ha]]]]]]; try (vm_compute in E; discriminate E).
+    cbn [ex_world In] in Hin.
+    destruct Hin as [<-|[<-|[<-|[<-|[<-|[]]]]]]; try (vm_compute in Hn; discriminate Hn);
+      cbn in Ha; intuition discriminate. }
+  split; [exact H|]. split; [apply nodollar_nil|]. split; [exact R1|]. split; [exact D1|].
+  split; [exact R2|]. split; [exact P|]. split; [exact O|].
+  exact (bystanders_untouched ex_world ex_cfg (dl_of ex_world) 20 ex_libb [Some (lit "1.0")] (lit "liba") true true
+           true ex_liba_just [] (setup_var (lit "base")) H D1 R2 P O).
+Qed.
+Print Assumptions c04_hypotheses_inhabited.
